@@ -17,6 +17,9 @@ static Fields gen(Tape &t) {
   f.seti("opt", t.chance(2, 5));
   f.seti("api", t.below(3));  // 0 ExMm+ledger, 1 Ex, 2 plain (only when opt == 0)
   f.seti("kind", kind);
+  // with the recording manager (api 0): in a quarter of the cases the k-th allocation of the call fails once; a call
+  // that then still reports success is held to the model like any other
+  f.seti("fault", t.chance(3, 4) ? 0 : t.range(1, 8));
   return f;
 }
 
@@ -51,6 +54,8 @@ template <class A> static Verdict check_type(const Fields &f, const MUri &MB, co
   int api = (int)f.geti("api");
   if (opt != 0 && api == 2) api = 1;
   int rc;
+  int fault = api == 0 ? (int)f.geti("fault") : 0;
+  if (fault > 0) mm.fail_at = (uint64_t)fault;
   if (api == 0) rc = A::AddBaseUriExMm(&d, &pr.uri, &pb.uri, (UriResolutionOptions)opt, &mm.mm);
   else if (api == 1) rc = A::AddBaseUriEx(&d, &pr.uri, &pb.uri, (UriResolutionOptions)opt);
   else rc = A::AddBaseUri(&d, &pr.uri, &pb.uri);
@@ -58,6 +63,14 @@ template <class A> static Verdict check_type(const Fields &f, const MUri &MB, co
     typename A::Uri *d; LedgerMM *mm; bool useMm;
     ~Cleanup() { if (useMm) A::FreeUriMembersMm(d, &mm->mm); else A::FreeUriMembers(d); }
   } cl{&d, &mm, api == 0};
+  bool bit = mm.failed > 0;
+  mm.reset_plan();
+  if (bit && rc != 0) {
+    VF_REQUIRE(rc == URI_ERROR_MALLOC || (m.rc != 0 && rc == URI_ERROR_ADDBASE_REL_BASE), "%s: allocation %d failed but rc=%d", A::name(), fault, rc);
+    stats().hit("resolution_ran_out_of_memory");
+    return Verdict::pass();
+  }
+  if (bit) stats().hit("fault_bit_but_success_reported");
   if (m.rc != 0) {
     VF_REQUIRE(rc == URI_ERROR_ADDBASE_REL_BASE, "%s: base without scheme but rc=%d", A::name(), rc);
     return Verdict::pass();
